@@ -1,8 +1,9 @@
 """Texts for MANIFEST.json, per claimed property."""
-HOOK_COMMITS = []
+HOOK_COMMITS = ["400b3e9"]
 ENGINES = [
     dict(name="driver", path="vf/driver.py", serves_properties=[], kind_free_text="builds targets against /repo's current tree, runs shards on 16 cores, merges reports, known-findings logic, evidence writer"),
-    dict(name="corpus+slots", path="vf/gen.py harness/engine.hpp harness/corpus_main.hpp model/peg_model.hpp", serves_properties=["C01", "C09"], kind_free_text="generate-compile-run grammar corpus and slot shapes, observer control with match() wrapper, reference PEG model, rapidcheck scripts"),
+    dict(name="corpus+slots", path="vf/gen.py harness/engine.hpp harness/corpus_main.hpp model/peg_model.hpp", serves_properties=["C01", "C02", "C09"], kind_free_text="generate-compile-run grammar corpus and slot shapes, observer control with match() wrapper, reference PEG model, rapidcheck scripts"),
+    dict(name="zoo", path="targets/c02_zoo.cpp", serves_properties=["C02"], kind_free_text="rule zoo: every hand-written match() rule in rewinding contexts on exhaustive short inputs, invariants from the observer control"),
     dict(name="enumerators+rapidcheck", path="targets/", serves_properties=["C17"], kind_free_text="total enumeration of finite spaces plus rapidcheck generators, explicit independent oracles"),
 ]
 NOTES = "All checks: ./check <id> --tier quick|thorough [--replay FILE]; seeds from VERIF_SEED; budgets are case counts."
@@ -15,6 +16,12 @@ CLAIMS = {
         text="Exploration: seeded random core-operator grammars (recursive named rules) on all inputs up to length 5/7 plus random longer ones, and all 7x7 operator nestings over adversarial scripted leaves with rapidcheck-generated behaviours, under 5 compile-time configurations (apply mode, top-level rewind mode, void actions, tracking, control). Every rule invocation's verdict and the top-level result/consumption are compared with an independent PEG interpreter. Finds wrong rewind modes / missing guards in the core combinators within seconds (see DESIGN.md sensitivity table); cannot show absence.",
         design_ref="DESIGN.md sections 1.1-1.4, 2 C01",
         note=CORPUS_NOTE),
+    "C02": dict(
+        engine="corpus+slots+zoo",
+        technique="observer control wrapping every Control<Rule>::match; exhaustive short inputs over a rule zoo, rapidcheck slot scripts, generated grammars; invariant oracle (cursor unchanged on local failure under required)",
+        text="Exploration: the rewind invariant is evaluated at every rule invocation (pointer, byte, line, column; look-ahead never moves; success never moves backwards) for ~80 hand-written-match rules in 6-7 rewinding contexts x 3 action attachments x eager/lazy on all strings to length 4..9, for every combinator over adversarial slots entered under required, and for random grammars. Found the integer-rule and raw_string defects (both fixed).",
+        design_ref="DESIGN.md sections 1.2, 1.3, 2 C02",
+        note="Trusted: the monitor (harness/engine.hpp) and the snapshot it takes of the input; the guarded bump hook only feeds the non-triviality counter."),
     "C09": dict(
         engine="corpus+slots",
         technique="slot-scripted rule shapes (rapidcheck) + generated grammars + exhaustive short inputs, differential against the documented expansion evaluated by a reference PEG interpreter",
